@@ -35,7 +35,7 @@ DESC_TEXT = ['NETFLIX.COM', 'UBER *EATS', 'AMZN Mktp US*1A2B3', 'CafÃ© "ZoÃ«" â˜
              '  padded  ', '{amount}', '100%', 'æ—¥æœ¬ ãƒ¬ã‚¹ãƒˆãƒ©ãƒ³', '#1234 STORE', 'x', '-5.00', '"quoted"', 'semi;colon', 'pipe|d', 'co:lon', 'back\\slash', 'CHECK 1001',
              # characters str.splitlines() treats as line boundaries but a text file does not: they are ordinary cell content
              'LINE\u2028SEP STORE', 'NEL\u0085FORM\x0cFEED', 'PARA\u2029GRAPH 12.50', 'VT\x0bFS\x1cGS\x1dRS\x1e END']
-CUSTOM_NAMES = ['memo', 'type', 'vendor', 'cardholder', 'code']
+CUSTOM_NAMES = ['memo', 'type', 'vendor', 'cardholder', 'code', '_ref']
 
 
 @st.composite
